@@ -840,13 +840,25 @@ def _const_table(F, fn, defs, blocks, iter_arg):
     cb = F.fns.get(cid) if cid else None
     if cb is None or cb["kind"] != "Static":
         return None
-    live = [b for b in cb["blocks"] if not b["cleanup"]]
-    if len(live) != 1 or live[0]["term"]["k"] != "return":
+    # the initialiser is straight-line: statements, possibly separated by the drop / goto terminators of moved-out temporaries
+    stmts, x, seen = [], 0, set()
+    while True:
+        if x in seen or x >= len(cb["blocks"]):
+            return None
+        seen.add(x)
+        b = cb["blocks"][x]
+        stmts += b["stmts"]
+        tk = b["term"]["k"]
+        if tk == "return":
+            break
+        if tk in ("drop", "goto", "falseunwind") and isinstance(b["term"].get("target"), int):
+            x = b["term"]["target"]
+            continue
         return None
-    arr = [st for st in live[0]["stmts"] if st["k"] == "assign" and st["lhs"]["l"] == 0 and not st["lhs"]["p"]]
+    arr = [st for st in stmts if st["k"] == "assign" and st["lhs"]["l"] == 0 and not st["lhs"]["p"]]
     if len(arr) != 1 or arr[0]["rv"]["k"] != "agg" or arr[0]["rv"]["ak"] != "array":
         return None
-    return cb, live[0]["stmts"], arr[0]["rv"]["ops"]
+    return cb, stmts, arr[0]["rv"]["ops"]
 
 
 def unroll_array_loops(F, fn, max_len=8, max_region=400):
@@ -877,8 +889,14 @@ def unroll_array_loops(F, fn, max_len=8, max_region=400):
             if a0["k"] not in ("copy", "move") or a0["p"]["p"] or t["dest"]["p"]:
                 continue
             elems, table = None, None
+            by_value = False
             if "array" in str(r):
                 elems = _array_elements(base, defs, a0["p"]["l"])
+                if not elems:
+                    # `for e in CONST_TABLE` (by value)
+                    table = _const_table(F, base, defs, blocks, a0)
+                    if table is not None:
+                        elems, by_value = table[2], True
             else:
                 # TABLE.iter() over a constant table: into_iter(<[T]>::iter(&TABLE))
                 ds_ = defs.get(a0["p"]["l"], [])
@@ -898,7 +916,7 @@ def unroll_array_loops(F, fn, max_len=8, max_region=400):
                 chain.append(x)
                 if tb["k"] == "call":
                     w2, r2 = mir.callee_of(tb)
-                    if (w2 or "").endswith("Iterator::next") and ("array::IntoIter" in str(r2) or (table is not None and "slice::Iter" in str(r2))):
+                    if (w2 or "").endswith("Iterator::next") and ("array::IntoIter" in str(r2) or (table is not None and not by_value and "slice::Iter" in str(r2))):
                         nxt_blk = x
                     break
                 if tb["k"] in ("goto", "falseunwind") and isinstance(tb.get("target"), int):
@@ -919,6 +937,7 @@ def unroll_array_loops(F, fn, max_len=8, max_region=400):
             nx_local = blocks[nxt_blk]["term"]["dest"]["l"]
             cand = (bi, chain, nxt_blk, sw, exit_b, body_b, nx_local, elems)
             cand_table = table
+            cand_by_value = by_value
             # region: reachable from body_b; header = first chain block reached again
             region, stack, header = set(), [body_b], None
             while stack:
@@ -989,7 +1008,9 @@ def unroll_array_loops(F, fn, max_len=8, max_region=400):
                 cur["locals"].append({"ty": "&?", "name": None})
                 rl_ = len(cur["locals"]) - 1
                 src_ = shift(x_)
-                if src_.get("k") in ("copy", "move"):
+                if cand_by_value:
+                    tgt_blk["stmts"].append({"k": "assign", "lhs": {"l": rl_, "p": []}, "rv": {"k": "use", "o": src_}, "line": None, "exp": None})
+                elif src_.get("k") in ("copy", "move"):
                     tgt_blk["stmts"].append({"k": "assign", "lhs": {"l": rl_, "p": []}, "rv": {"k": "ref", "mut": False, "p": src_["p"]}, "line": None, "exp": None})
                 else:
                     cur["locals"].append({"ty": "?", "name": None})
@@ -1143,3 +1164,183 @@ def _unroll_one(fn, defs0, bi, chain, nxt_blk, sw, exit_b, body_b, nx_local, ele
     for y in copied:
         blocks[y] = {"cleanup": blocks[y]["cleanup"], "stmts": [], "term": {"k": "unreachable", "file": None, "line": blocks[y]["term"].get("line"), "exp": None}}
     fn.setdefault("unrolled", []).append({"loop_header": header, "elements": n})
+
+
+# ----------------------------------------------------------------------------------------
+# `TABLE.iter().any(|e| p(e))` over a table whose elements are known is `p(e0) || p(e1) || ..` (all: `&&`)
+
+def expand_quantifiers(F, fn, max_len=8):
+    """returns (new fn or None, calls rewritten)"""
+    cur, total = None, 0
+    for _ in range(4):
+        base = cur or fn
+        blocks = base["blocks"]
+        defs = {}
+        for b in blocks:
+            for st in b["stmts"]:
+                if st["k"] == "assign":
+                    defs.setdefault(st["lhs"]["l"], []).append(st)
+            t = b["term"]
+            if t["k"] == "call":
+                defs.setdefault(t["dest"]["l"], []).append(None)
+        B = mir.Body(base, F)
+        cand = None
+        for bi, b in enumerate(blocks):
+            t = b["term"]
+            if t["k"] != "call" or b["cleanup"] or not isinstance(t.get("target"), int) or t["dest"]["p"] or len(t["args"]) != 2:
+                continue
+            w, r = mir.callee_of(t)
+            short = (w or "").rsplit("::", 1)[-1]
+            if short not in ("any", "all") or "Iterator" not in (w or ""):
+                continue
+            cl = [(o[1], o[2]) for o in B.origins(t["args"][1]) if o[0] == "agg" and o[1] in F.fns and F.fns[o[1]]["kind"] == "Closure"]
+            if len(cl) != 1 or F.fns[cl[0][0]]["arg_count"] != 2:
+                continue
+            # receiver: &mut ITER, ITER = <[T]>::iter(&TABLE)
+            it = None
+            o = t["args"][0]
+            hops = 0
+            while hops < 6 and o.get("k") in ("copy", "move") and not [e for e in o["p"]["p"] if e != "*"]:
+                hops += 1
+                ds = defs.get(o["p"]["l"], [])
+                if len(ds) != 1:
+                    break
+                if ds[0] is None:
+                    for pb_ in blocks:
+                        pt_ = pb_["term"]
+                        if pt_["k"] == "call" and pt_["dest"] == {"l": o["p"]["l"], "p": []} and (mir.callee_of(pt_)[0] or "").endswith("<impl [T]>::iter"):
+                            it = pt_
+                    break
+                rv = ds[0]["rv"]
+                if ds[0]["lhs"]["p"]:
+                    break
+                if rv["k"] in ("use", "cast"):
+                    o = rv["o"]
+                elif rv["k"] == "ref":
+                    o = {"k": "copy", "p": rv["p"]}
+                else:
+                    break
+            if it is None:
+                continue
+            table = _const_table(F, base, defs, blocks, it["args"][0])
+            if table is None or len(table[2]) > max_len:
+                continue
+            cand = (bi, short, cl[0][0], cl[0][1], table)
+            break
+        if cand is None:
+            break
+        if cur is None:
+            cur = copy.deepcopy(fn)
+        _expand_one(F, cur, *cand)
+        total += 1
+    return cur, total
+
+
+def _expand_one(F, fn, bi, kind, cid, ablk, table):
+    blocks = fn["blocks"]
+    t = blocks[bi]["term"]
+    dest, cont, line = t["dest"], t["target"], t.get("line")
+    cb_, cstm_, cops_ = table
+    cf = F.fns[cid]
+
+    def assign(lhs, rv):
+        return {"k": "assign", "lhs": lhs, "rv": rv, "line": line, "exp": None}
+
+    def goto(tg):
+        return {"k": "goto", "target": tg, "file": t.get("file"), "line": line, "exp": None}
+    # the constant's initialiser, locals renumbered
+    dl_ = len(fn["locals"])
+    for l_ in cb_["locals"]:
+        fn["locals"].append(dict(l_, name=None))
+    dp_ = len(fn.get("promoted", []))
+    fn.setdefault("promoted", [])
+    fn["promoted"] += copy.deepcopy(cb_.get("promoted", []))
+
+    def shift(o_):
+        if isinstance(o_, dict) and o_.get("k") in ("copy", "move"):
+            return dict(o_, p={"l": o_["p"]["l"] + dl_, "p": o_["p"]["p"]})
+        if isinstance(o_, dict) and "promoted" in o_:
+            return dict(o_, promoted=o_["promoted"] + dp_)
+        return o_
+    pre = blocks[bi]["stmts"]
+    for st_ in cstm_:
+        if st_["k"] != "assign":
+            continue
+        s2_ = copy.deepcopy(st_)
+        s2_["lhs"] = {"l": st_["lhs"]["l"] + dl_, "p": st_["lhs"]["p"]}
+        rv_ = s2_["rv"]
+        if rv_["k"] in ("use", "cast", "repeat"):
+            rv_["o"] = shift(rv_["o"])
+        elif rv_["k"] == "agg":
+            rv_["ops"] = [shift(x_) for x_ in rv_["ops"]]
+        elif rv_["k"] in ("ref", "discr"):
+            rv_["p"] = {"l": rv_["p"]["l"] + dl_, "p": rv_["p"]["p"]}
+        pre.append(s2_)
+    refs = []
+    for x_ in cops_:
+        fn["locals"].append({"ty": "&?", "name": None})
+        rl_ = len(fn["locals"]) - 1
+        src_ = shift(x_)
+        if src_.get("k") in ("copy", "move"):
+            pre.append(assign({"l": rl_, "p": []}, {"k": "ref", "mut": False, "p": src_["p"]}))
+        else:
+            fn["locals"].append({"ty": "?", "name": None})
+            tl_ = len(fn["locals"]) - 1
+            pre.append(assign({"l": tl_, "p": []}, {"k": "use", "o": src_}))
+            pre.append(assign({"l": rl_, "p": []}, {"k": "ref", "mut": False, "p": {"l": tl_, "p": []}}))
+        refs.append(rl_)
+    # captured variables of the closure
+    ups = []
+    for st in blocks[ablk]["stmts"]:
+        if st["k"] == "assign" and st["rv"]["k"] == "agg" and st["rv"].get("def") == cid:
+            for op in st["rv"]["ops"]:
+                fn["locals"].append({"ty": "?", "name": None})
+                ups.append(len(fn["locals"]) - 1)
+            idx = blocks[ablk]["stmts"].index(st)
+            blocks[ablk]["stmts"][idx + 1:idx + 1] = [assign({"l": ups[i], "p": []}, {"k": "use", "o": op}) for i, op in enumerate(st["rv"]["ops"])]
+            break
+    hit = kind == "any"          # any: a true element decides (true); all: a false element decides (false)
+    fin = len(blocks)
+    blocks.append({"cleanup": False, "stmts": [assign(dest, {"k": "use", "o": {"k": "const", "ty": "bool", "val": 0 if hit else 1}})], "term": goto(cont)})
+    dec = len(blocks)
+    blocks.append({"cleanup": False, "stmts": [assign(dest, {"k": "use", "o": {"k": "const", "ty": "bool", "val": 1 if hit else 0}})], "term": goto(cont)})
+    nxt = fin
+    for i in reversed(range(len(refs))):
+        dl, dp = len(fn["locals"]), len(fn.get("promoted", []))
+        for l in cf["locals"]:
+            fn["locals"].append(dict(l, name=("<|%s|>%s" % (kind, l["name"])) if l.get("name") else None))
+        fn["promoted"] += copy.deepcopy(cf.get("promoted", []))
+        fn["locals"].append({"ty": "bool", "name": None})
+        res = len(fn["locals"]) - 1
+
+        def mp(p):
+            pr = list(p["p"])
+            if p["l"] == 1:
+                if pr and pr[0] == "*":
+                    pr = pr[1:]
+                if pr and isinstance(pr[0], dict) and "f" in pr[0] and pr[0]["f"] < len(ups):
+                    base, rest = ups[pr[0]["f"]], pr[1:]
+                else:
+                    base, rest = 1 + dl, list(p["p"])
+            else:
+                base, rest = p["l"] + dl, pr
+            q_ = {"l": base, "p": []}
+            for e in rest:
+                if isinstance(e, dict) and "i" in e:
+                    e = dict(e, i=e["i"] + dl)
+                q_["p"].append(e)
+            return q_
+        test_blk = len(blocks)
+        blocks.append({"cleanup": False, "stmts": [], "term": {"k": "switch", "d": {"k": "copy", "p": {"l": res, "p": []}},
+                                                              "targets": [[0, nxt if hit else dec]], "otherwise": dec if hit else nxt,
+                                                              "file": t.get("file"), "line": line, "exp": None}})
+
+        def on_return(ct, res=res, test_blk=test_blk, dl=dl):
+            return [assign({"l": res, "p": []}, {"k": "use", "o": {"k": "move", "p": {"l": dl, "p": []}}})], goto(test_blk)
+        entry = _splice(fn, cf, "|%s|" % kind, mp, dp, on_return, t.get("unwind"))
+        blocks = fn["blocks"]
+        head = len(blocks)
+        blocks.append({"cleanup": False, "stmts": [assign({"l": 2 + dl, "p": []}, {"k": "use", "o": {"k": "copy", "p": {"l": refs[i], "p": []}}})], "term": goto(entry)})
+        nxt = head
+    blocks[bi]["term"] = goto(nxt)
+    fn.setdefault("unrolled", []).append({"quantifier": kind, "elements": len(refs)})
